@@ -92,7 +92,7 @@ ASSUMPTIONS = [
     "adapters (FillRequest, FillRequestSeq, FillCompute) around an accumulator are transparent while the block size is not "
     "reached: fill/reset through them are the element's own (validated on the cases with 'via')",
 ]
-RULE = ("per element configuration (61 of them: Count, Sum, DSum, Mean[None|Sum()|DSum()|Sum(start)|Count()|StoreFilled(False)|"
+RULE = ("per element configuration (64 of them: Count, Sum, DSum, Mean[None|Sum()|DSum()|Sum(start)|Count()|StoreFilled(False)|"
         "FillCompute(Sum()) without reset], VarianceMeanCount[default or explicit sums], Vectorize[Sum|Count|Mean|Mean(DSum())|DSum|"
         "VarianceMeanCount|StoreFilled, bare or wrapped in FillComputeSeq(lambda x: k*x, .), dim 1..3, list form, short and long "
         "data vectors, construct None|variadic|namedtuple of right and wrong size], StoreFilled, GroupBy[default|group_by|merge, "
